@@ -526,6 +526,14 @@ def run(prog, rep):
     rep.floor("C12.6", 3 + 3 + 2)
 
 
+# objects are zero-filled at birth: the functions of these units rely on it for every field their constructors do not store
+_run_clauses = run
+
+
+def run(prog, rep):
+    _run_clauses(prog, rep)
+    from plint.wiring import check_zero_init
+    check_zero_init(rep, "C12.4", prog, ['ptree.c'], 1)
 
 # generic robustness battery: renaming every local/parameter in these files must not change any verdict
 RENAME_LOCALS = ['src/ptree.c', 'src/ptree-bst.c', 'src/ptree-rb.c', 'src/ptree-avl.c']
